@@ -187,6 +187,8 @@ class ProtocolContext:
                 self.set_state(IsInIdle, result=self._state._echo_pkt)
 
             elif isinstance(self._state, WantEcho | WantRply):
+                if self._expiry_timer is not None:  # two transitions in one iteration: the
+                    self._expiry_timer.cancel()  # first one's deferred half ran in this state too
                 self._expiry_timer = self._loop.create_task(expire_state_on_timeout())
 
         if self._expiry_timer is not None:
